@@ -239,11 +239,9 @@ def execute(sv, workload, policy_spec, sched_seed=0, bound=None, docs=None, coun
     # having used the library at all: races that only exist at FIRST use (lazy initialisation) stay reachable.
     from sim import runner
     try:
-        got = runner.isolated(_reference_child, sv, workload, count_steps, hang_s=120)
-    except RuntimeError as e:
-        if 'signal=14' in str(e):
-            return {'discarded': 'slow-operation-in-reference-pass'}
-        raise
+        got = runner.isolated(_reference_child, sv, workload, count_steps, hang_s=20)
+    except runner.IsolatedTimeout:
+        return {'discarded': 'reference-pass-killed-at-deadline(stuck-in-C-code)'}
     if isinstance(got, dict):
         return got
     ref, ref_steps, ref_keys = got
@@ -434,7 +432,7 @@ def run_chunk(task, agg):
     cfg = task['config']
     sv = env.load_soupsieve(cache_bound=cfg['bound'])
     for i in task['indices']:
-        agg.merge(runner.isolated(_one_run, sv, task['verif_seed'], cfg, i, len(agg.samples)))
+        runner.merge_isolated(agg, f"{cfg['name']}:{i}", _one_run, sv, task['verif_seed'], cfg, i, len(agg.samples))
 
 
 def _one_run(sv, verif_seed, cfg, i, nsamples):
